@@ -2,7 +2,7 @@
    explicit.  No proofs here.
 
    Go code mirrored (branch by branch, same early returns):
-     server/server.go                         serviceImpl.{Propose,Vote,NewView,Timeout,RequestBlock}
+     server/server.go                         serviceImpl.{Propose,Vote,NewView,Timeout,RequestBlock}, addNetworkDelay
      protocol/comm/kauri/service.go           kauriServiceImpl.SendContribution (AddEvent of the request)
      internal/proto/hotstuffpb/convert.go     QuorumSignatureFromProto, *FromProto
      types.go                                 QuorumCert.Equals, NewPartialCert, NewQuorumCert, NewTimeoutCert, NewAggregateQC, SyncInfo
@@ -52,17 +52,19 @@ Record guards := {
   g_agg_sync  : bool;   (* timeoutrule_aggregate.go VerifySyncInfo: aggQC.Sig() == nil -> error *)
   g_cache     : bool;   (* cache.go Cache.Verify: signature == nil -> delegate to impl (which rejects) *)
   g_bitfield  : bool;   (* bitfield.go Bitfield.Contains: id == 0 -> false (ids start at 1; 1 << -1 panics) *)
-  g_equals    : bool    (* types.go QuorumCert.Equals: one signature nil -> compare presence, no ToBytes() *)
+  g_equals    : bool;   (* types.go QuorumCert.Equals: one signature nil -> compare presence, no ToBytes() *)
+  g_latency   : bool    (* server.go addNetworkDelay: sender outside the latency matrix -> no delay (lm.lm[a-1][b-1]) *)
 }.
-Definition all_guards := Build_guards true true true true true true true true true.
+Definition all_guards := Build_guards true true true true true true true true true true.
 (* the tree as first found; QuorumCert.Equals already had its nil check *)
-Definition no_guards := Build_guards false false false false false false false false true.
+Definition no_guards := Build_guards false false false false false false false false true false.
 
 Record cfg := {
   c_scheme : scheme;   (* crypto.New(config, name) *)
   c_cache  : bool;     (* config.CacheSize() > 0: Authority.Base is a *Cache *)
   c_aggqc  : bool;     (* config.HasAggregateQC(): Aggregate timeout rule, AggQC checked in VerifyAnyQC *)
   c_kauri  : bool;     (* config.HasKauriTree() *)
+  c_latency : bool;    (* server.WithLatencies: the latency matrix is enabled *)
   c_q      : N;        (* config.QuorumSize() *)
   c_g      : guards
 }.
@@ -278,7 +280,9 @@ Record env := {
   e_leader_ok   : bool;  (* proposal: sender is the leader of the block's view *)
   e_vote_reach  : bool;  (* vote: a voting machine is registered (no Kauri tree), the block is in the
                             local store and newer than the high QC's view *)
-  e_contrib_reach : bool (* contribution: view equals Kauri's current view and its block can be fetched *)
+  e_contrib_reach : bool; (* contribution: view equals Kauri's current view and its block can be fetched *)
+  e_peer_in_matrix : bool (* the sender id handed to addNetworkDelay (metadata id; 0 if missing in Timeout; the
+                             block's Proposer field with the Kauri tree) is one of 1..n of the latency matrix *)
 }.
 
 (* QuorumCert.Equals(other): view, hash, then the signatures; with exactly one signature nil the
@@ -465,6 +469,11 @@ Definition on_contribution (c : cfg) (e : env) (s : option dsig) : result verdic
 (* ---------- the service handlers (gorums never passes a nil request) ---------- *)
 
 (* ctx_ok: config.PeerIDFromContext(ctx) succeeded *)
+(* Server.addNetworkDelay(sender): lm.Latency(srv.id, sender) indexes the matrix with sender-1.
+   true = returns, false = index out of range *)
+Definition net_delay_returns (c : cfg) (e : env) : bool :=
+  negb (c_latency c) || e_peer_in_matrix e || g_latency (c_g c).
+
 Definition srv_propose (c : cfg) (e : env) (ctx_ok : bool) (p : wproposal) : result verdict :=
   if negb ctx_ok then Ok Dropped
   else match p_block p with
@@ -473,25 +482,28 @@ Definition srv_propose (c : cfg) (e : env) (ctx_ok : bool) (p : wproposal) : res
            match proposal_from_proto (c_g c) (Some p) with
            | Panic => Panic
            | Reject => Reject
-           | Ok dp => on_propose c e dp
+           | Ok dp => if net_delay_returns c e then on_propose c e dp else Panic
            end
        end.
 
 Definition srv_vote (c : cfg) (e : env) (ctx_ok : bool) (v : wvote) : result verdict :=
   if negb ctx_ok then Ok Dropped
+  else if negb (net_delay_returns c e) then Panic
   else match pcert_from_proto (c_g c) (Some v) with
        | Panic => Panic
        | Reject => Reject
        | Ok s => on_vote c e s
        end.
 
-Definition srv_new_view (c : cfg) (ctx_ok : bool) (s : wsync) : result verdict :=
+Definition srv_new_view (c : cfg) (e : env) (ctx_ok : bool) (s : wsync) : result verdict :=
   if negb ctx_ok then Ok Dropped
+  else if negb (net_delay_returns c e) then Panic
   else on_new_view c (sync_from_proto (Some s)).
 
 (* Timeout does not return when the peer id is missing (id 0 is used) *)
-Definition srv_timeout (c : cfg) (t : wtimeout) : result verdict :=
-  on_timeout c (timeout_from_proto (Some t)).
+Definition srv_timeout (c : cfg) (e : env) (t : wtimeout) : result verdict :=
+  if negb (net_delay_returns c e) then Panic
+  else on_timeout c (timeout_from_proto (Some t)).
 
 (* RequestBlock only reads the local store; the reply is found / not found *)
 Definition srv_request_block (h : hclass) : bool :=
@@ -504,8 +516,8 @@ Definition handle (c : cfg) (e : env) (ctx_ok : bool) (m : wmsg) : result verdic
   match m with
   | MPropose p => srv_propose c e ctx_ok p
   | MVote v => srv_vote c e ctx_ok v
-  | MNewView s => srv_new_view c ctx_ok s
-  | MTimeout t => srv_timeout c t
+  | MNewView s => srv_new_view c e ctx_ok s
+  | MTimeout t => srv_timeout c e t
   | MRequestBlock _ => Ok Dropped
   | MContribution k => srv_contribution c e k
   end.
